@@ -587,14 +587,40 @@ func ruleOperatorAlphabet(c *eng.Ctx) {
 				has = true
 			}
 		})
+		target := func(in ssa.Instruction) bool {
+			ci, ok := in.(ssa.CallInstruction)
+			return ok && strings.HasSuffix(eng.CalleeName(ci), ".WriteByte")
+		}
+		if !has && h == fnOp {
+			// the name is cut out of the input afterwards (data[start:pos]): the accepted bytes are those on
+			// which the scanning loop advances the cursor
+			adv := func(in ssa.Instruction) bool {
+				st, ok := in.(*ssa.Store)
+				if !ok || !eng.InLoop(st.Block()) {
+					return false
+				}
+				if _, isF := st.Addr.(*ssa.FieldAddr); !isF {
+					return false
+				}
+				b, ok := st.Val.(*ssa.BinOp)
+				if !ok || b.Op != token.ADD {
+					return false
+				}
+				k, isC := eng.ConstInt(b.Y)
+				return isC && k == 1
+			}
+			eng.Instrs(h, false, func(in ssa.Instruction) {
+				if adv(in) {
+					has = true
+				}
+			})
+			target = adv
+		}
 		if !has {
 			continue
 		}
 		accepts++
-		kk := eng.ByteReach(h, eng.DefaultByteVar, func(in ssa.Instruction) bool {
-			ci, ok := in.(ssa.CallInstruction)
-			return ok && strings.HasSuffix(eng.CalleeName(ci), ".WriteByte")
-		}, nil)
+		kk := eng.ByteReach(h, eng.DefaultByteVar, target, nil)
 		for i := range kk {
 			K[i] = K[i] || kk[i]
 		}
@@ -602,6 +628,14 @@ func ruleOperatorAlphabet(c *eng.Ctx) {
 	if accepts == 0 {
 		c.Undec(R, "contentstream.(*Parser).parseOperator#operator-continue", fnOp.Pos(), "cannot find the loop that accepts operator bytes")
 		return
+	}
+	// an operator token ends at white space and at every delimiter: `BT/F1 12 Tf(Hello)Tj` is five tokens
+	for _, b := range []byte("()<>[]{}/% \t\r\n\f\x00") {
+		if K[b] {
+			c.Viol(R, fmt.Sprintf("contentstream.(*Parser).parseOperator#stops-at %q", rune(b)), fnOp.Pos(), fmt.Sprintf("byte %q is accepted inside an operator name: an operand or comment glued to the operator is swallowed into it", rune(b)))
+		} else {
+			c.Ok(R, fmt.Sprintf("contentstream.(*Parser).parseOperator#stops-at %q", rune(b)), fnOp.Pos(), "ends the operator token")
+		}
 	}
 	startPos := fnNext.Pos()
 	// no operand-start byte may be an operator start: digits, sign, '.', '(', '<', '/', '['
